@@ -97,12 +97,12 @@ func runC08(c *Ctx) {
 	r.Rule("release-reset", "Release()/Reset() methods reset every per-call field")
 	r.Rule("no-global-state", "no function reachable from an entry point stores to a package-level variable of the parsing packages")
 	n, _ := putResetRule(c, p, isStatefulPool, "put-reset", false)
-	r.Floor("put-reset", n, 2, "stateful Put sites")
+	r.Floor("put-reset", n, 1, "stateful Put sites")
 	total := 0
 	for _, s := range []stateful{{"pkg/sql/parser", "Parser", "tokens"}, {"pkg/sql/tokenizer", "Tokenizer", "input"}} {
 		total += c08Object(c, p, s)
 	}
-	r.Floor("entry-assign", r.Count("entry-assign"), 30, "(entry, field) pairs")
+	r.Floor("entry-assign", r.Count("entry-assign"), 16, "(entry, field) pairs")
 	_ = total
 }
 
@@ -135,6 +135,52 @@ func c08Object(c *Ctx, p *core.Prog, s stateful) int {
 			}
 		}
 	}
+	// an unexported loader helper (stores its parameter into the input field on behalf of its callers) is not an
+	// entry itself: the methods that pass it their own parameter are
+	for changed := true; changed; {
+		changed = false
+		for i, h := range entries {
+			if h.Object() != nil && h.Object().Exported() {
+				continue
+			}
+			var lifted []*ssa.Function
+			for _, fn := range fns {
+				if fn == h || fn.Parent() != nil || fn.Signature.Recv() == nil || core.NamedOf(fn.Signature.Recv().Type()) != T {
+					continue
+				}
+				for _, b := range fn.Blocks {
+					for _, in := range b.Instrs {
+						call, ok := in.(*ssa.Call)
+						if !ok || call.Call.StaticCallee() != h {
+							continue
+						}
+						for _, a := range call.Call.Args[1:] {
+							if d := paramDerived(a); d != "" && !strings.HasPrefix(d, fn.Params[0].Name()+".") && d != fn.Params[0].Name() {
+								lifted = append(lifted, fn)
+							}
+						}
+					}
+				}
+			}
+			if len(lifted) > 0 {
+				entries = append(entries[:i], entries[i+1:]...)
+				for _, l := range lifted {
+					dup := false
+					for _, e := range entries {
+						if e == l {
+							dup = true
+						}
+					}
+					if !dup {
+						entries = append(entries, l)
+					}
+				}
+				changed = true
+				break
+			}
+		}
+	}
+	sort.Slice(entries, func(i, j int) bool { return core.FnName(entries[i]) < core.FnName(entries[j]) })
 	if len(entries) < 2 {
 		r.Fatal("anchor not found: entry points of %s (methods storing a parameter into field %s): found %d", s.typ, s.inputField, len(entries))
 		return 0
